@@ -19,14 +19,27 @@ def norm_name(name, strip_temp):
     return name
 
 
-def dump(world_or_module, strip_temp=False, with_addresses=True):
+def dump(world_or_module, strip_temp=False, with_addresses=True, unit_names=False):
+    """With ``unit_names`` byte intervals are named by the listing unit they
+    hold (stable across runs) instead of by their address rank, so that a
+    different interval order only shows up in the 'addr' fields."""
     m = getattr(world_or_module, "module", world_or_module)
     ir = m.ir
+    names = getattr(world_or_module, "unit_of_interval", {}) if unit_names else {}
+
+    def ranked(sect):
+        ivs = sorted_intervals(sect)
+        if names:
+            ivs = sorted(ivs, key=lambda bi: str(names.get(str(bi.uuid), "~" + str(bi.address))))
+        return ivs
+
     loc = {}  # block uuid -> descriptor
     out = {"sections": [], "isa": m.isa.name, "ff": m.file_format.name}
     for sect in sorted(m.sections, key=lambda s: s.name):
         sd = {"name": sect.name, "flags": sorted(f.name for f in sect.flags), "intervals": []}
-        for rank, bi in enumerate(sorted_intervals(sect)):
+        for rank, bi in enumerate(ranked(sect)):
+            if names:
+                rank = str(names.get(str(bi.uuid), "?"))
             bl = []
             ties = {}
             for b in sorted_blocks(bi):
@@ -36,7 +49,7 @@ def dump(world_or_module, strip_temp=False, with_addresses=True):
                 loc[b.uuid] = key + ((n,) if n else ())
                 bl.append([b.offset, b.size, block_kind(b)])
             sx = sorted((off, _expr(e, strip_temp)) for off, e in bi.symbolic_expressions.items())
-            d = {"size": bi.size, "init": bi.initialized_size, "bytes": bytes(bi.contents).hex(), "blocks": bl, "symexprs": sx}
+            d = {"unit": rank, "size": bi.size, "init": bi.initialized_size, "bytes": bytes(bi.contents).hex(), "blocks": bl, "symexprs": sx}
             if with_addresses:
                 d["addr"] = bi.address
             sd["intervals"].append(d)
@@ -53,6 +66,8 @@ def dump(world_or_module, strip_temp=False, with_addresses=True):
             return ("section", n.name)
         if isinstance(n, gtirb.ByteInterval):
             s = n.section
+            if names:
+                return ("interval", s.name if s else None, str(names.get(str(n.uuid), "?")))
             return ("interval", s.name if s else None, sorted_intervals(s).index(n) if s else None)
         return ("node", type(n).__name__)
 
